@@ -194,9 +194,8 @@ def run(t, budget=1.0):
             n = len(calls)
             per_schema[sname] = {"io_calls": n, "files": len(ref)}
             ks = list(range(1, n + 1))
-            if quick and si >= 3:
-                # quick tier: all k for the first three schemas; for the others every 3rd k, rotating
-                ks = [k for k in ks if (k + si) % 3 == 0]
+            # quick tier: every k of every schema, one rotating (errno, populated) combination per k (+ short write);
+            # thorough: the full cross product
             for k in ks:
                 kind = calls[k - 1][0]
                 if quick:
@@ -238,7 +237,8 @@ def run(t, budget=1.0):
                                   "%s: k=%d %s" % (sname, r["k"], text))
         res.extra["per_schema"] = per_schema
         res.extra["schemas"] = len(per_schema)
-        res.exhaustive = not quick
+        res.exhaustive = True
+        res.extra["exhaustive_scope"] = "every k-th output I/O call of every schema listed in per_schema" + ("" if not quick else "; errno/mode/populated combinations rotate in the quick tier")
     finally:
         shutil.rmtree(work, ignore_errors=True)
     return res.finish()
